@@ -16,6 +16,8 @@ class Ctx:
   def __init__(self, repo: str = None, expand=False):
     self.p = Project(repo, expand=expand)
     self.types = Types(self.p)
+    from fdlstatic.rules import sigrules  # pylint: disable=g-import-not-at-top
+    sigrules.register_kind_constants(self.p)
     self._cg: Optional[CallGraph] = None
     self._cfgs: Dict[str, cfg_lib.CFG] = {}
 
@@ -48,6 +50,23 @@ class Ctx:
     return f'{f.module.relpath}:{getattr(node, "lineno", 0)}'
 
   # ------------------------------------------------------------- queries
+  def const(self, expr, scope: Scope, depth: int = 2):
+    """`expr`, or the module-level constant it names (NAME = <tuple / set /
+    frozenset(...)> at module level, never rebound in a function)."""
+    while depth > 0 and isinstance(expr, ast.Name):
+      mod = scope.module
+      v = mod.assigns.get(expr.id) if hasattr(mod, 'assigns') else None
+      if v is None:
+        break
+      f = scope if isinstance(scope, FuncInfo) else None
+      if f is not None and any(
+          isinstance(n, ast.Name) and n.id == expr.id and isinstance(
+              n.ctx, (ast.Store, ast.Del)) for n in walk_function(f.node)):
+        break
+      expr = v
+      depth -= 1
+    return expr
+
   def bound_args(self, call: ast.Call, scope: Scope) -> Optional[Dict[str, ast.expr]]:
     """Parameter name -> argument expression of a call to a function or class
     of the analysed tree (positional and keyword arguments bound as Python
